@@ -219,3 +219,57 @@ def problem_from_mj(mjm, mjd):
         if rows["type"][r[0]] == T_CELL:
           cones.append((r, np.array(con.friction), float(con.friction[0]) * mu_scale))
   return Problem(M, mjd.qacc_smooth, rows["J"], rows["D"], rows["aref"], rows["frictionloss"], rows["type"], cones, mjm.stat.meaninertia, mjm.opt.tolerance)
+
+
+# ------------------------------------------------------------------------------------------- float64 reference solve
+
+
+def refine(P, q0, iters=60):
+  """Independent float64 minimisation of P's cost (damped Newton, finite-difference Hessian of the analytic gradient,
+  Armijo backtracking on the exact cost).  Returns (q*, cost(q*), slack) where slack = 1/2 g*'M^-1 g* bounds how far
+  cost(q*) can still be above the true minimum (strong convexity), so  cost(q)-cost(q*) <= subopt(q) <= cost(q)-cost(q*)+slack.
+  """
+  q = np.array(q0, np.float64)
+  ev = P.evaluate(q)
+  best = (q.copy(), ev["cost"], ev["grad"].copy())
+  JT = P.J.T
+  for _ in range(iters):
+    g = ev["grad"]
+    gn = float(np.linalg.norm(g))
+    if gn <= 1e-13 * (1.0 + float(np.linalg.norm(np.abs(P.M) @ np.abs(q - P.qacc_smooth)))):
+      break
+    H = np.empty((P.nv, P.nv))
+    for i in range(P.nv):
+      h = 1e-6 * (1.0 + abs(q[i]))
+      e = np.zeros(P.nv)
+      e[i] = h
+      H[:, i] = (P.evaluate(q + e)["grad"] - P.evaluate(q - e)["grad"]) / (2 * h)
+    H = 0.5 * (H + H.T)
+    try:
+      np.linalg.cholesky(H)
+    except np.linalg.LinAlgError:
+      H = P.M + (JT * P.D) @ P.J if P.nefc else P.M
+    p = -np.linalg.solve(H, g)
+    gp = float(g @ p)
+    if gp >= 0:
+      p = -np.linalg.solve(P.M, g)
+      gp = float(g @ p)
+    t, c0 = 1.0, ev["cost"]
+    moved = False
+    for _ls in range(50):
+      evn = P.evaluate(q + t * p)
+      if evn["cost"] <= c0 + 1e-4 * t * gp:
+        moved = True
+        break
+      t *= 0.5
+    if not moved:
+      break
+    q, ev = q + t * p, evn
+    if ev["cost"] <= best[1]:
+      best = (q.copy(), ev["cost"], ev["grad"].copy())
+  qb, cb, gb = best
+  try:
+    slack = 0.5 * max(float(gb @ np.linalg.solve(P.M, gb)), 0.0)
+  except np.linalg.LinAlgError:
+    slack = float("inf")
+  return qb, cb, slack
